@@ -85,6 +85,50 @@ theorem ref_seek_then_apply (bs lim : Nat) (kb : Nat → UInt8) (q p : Nat) (d :
     (refRun bs lim kb q [.seek p, .apply d]).1 = [.ok, .out (xorB d (ksBytes kb p d.length))] := by
   simp [refRun, refStep, h]
 
+/-- the reference machine on a concatenated history. -/
+theorem refRun_append (bs lim : Nat) (kb : Nat → UInt8) : ∀ (a b : List SOp) (q : Nat),
+    (refRun bs lim kb q (a ++ b)).1 = (refRun bs lim kb q a).1 ++ (refRun bs lim kb (refRun bs lim kb q a).2 b).1 := by
+  intro a
+  induction a with
+  | nil => intro b q; simp [refRun]
+  | cons o os ih => intro b q; simp [refRun, ih]
+
+/-- **seek, then ask**: on the model of the code itself (not only on the reference machine), after *any* valid history a
+    `seek p` into the keystream succeeds and the position reported next is `p` — for every integer type that can hold the end
+    of the block `p` lies in; whatever came before (data, earlier seeks, position queries) has no influence.
+    Stated once for any object whose histories are those of the reference machine; instances CTR (six flavours) and BelT-CTR. -/
+theorem seek_then_pos_generic (bs lim : Nat) (kb : Nat → UInt8) (run : List SOp → List SObs)
+    (H : ∀ ops : List SOp, (∀ o ∈ ops, o.Valid bs lim) → run ops = (refRun bs lim kb 0 ops).1)
+    (ops : List SOp) (hv : ∀ o ∈ ops, o.Valid bs lim) (p m : Nat) (hp : p < lim * bs) (hm : (p + bs - 1) / bs * bs ≤ m) :
+    run (ops ++ [.seek p, .pos m]) = run ops ++ [.ok, .pos p] := by
+  have hv2 : ∀ o ∈ ops ++ [SOp.seek p, .pos m], o.Valid bs lim := by
+    intro o ho
+    rcases List.mem_append.mp ho with h | h
+    · exact hv o h
+    · simp at h
+      rcases h with rfl | rfl <;> simp [SOp.Valid, hp]
+  rw [H _ hv2, H _ hv, refRun_append]
+  simp [refRun, refStep, hm]
+
+theorem ctr_seek_then_pos (C : Cipher) (hC : C.Valid) (hbs : C.bs < 256) (f : Flavor) (hw : f.w = 8 * f.cs)
+    (hcs : 0 < f.cs) (k : Nat) (hk : 0 < k) (iv : Bytes) (hiv : iv.length = k * f.cs) (hblk : C.bs = k * f.cs)
+    (w : Nat) (ops : List SOp) (hv : ∀ o ∈ ops, o.Valid C.bs (2 ^ f.w - 1)) (p m : Nat) (hp : p < (2 ^ f.w - 1) * C.bs)
+    (hm : (p + C.bs - 1) / C.bs * C.bs ≤ m) :
+    (Wr.runOps (Ctr.core C f) w (Wr.fromCore (Ctr.core C f) (Ctr.init C f iv)) (ops ++ [.seek p, .pos m])).1
+      = (Wr.runOps (Ctr.core C f) w (Wr.fromCore (Ctr.core C f) (Ctr.init C f iv)) ops).1 ++ [.ok, .pos p] :=
+  seek_then_pos_generic C.bs (2 ^ f.w - 1) (ksByte C.bs (ctrKs C f iv))
+    (fun ops => (Wr.runOps (Ctr.core C f) w (Wr.fromCore (Ctr.core C f) (Ctr.init C f iv)) ops).1)
+    (fun ops hv => ctr_ops_coherent C hC hbs f hw hcs k hk iv hiv hblk w ops hv) ops hv p m hp hm
+
+theorem belt_seek_then_pos (C : Cipher) (hC : C.Valid) (hbs : C.bs = 16) (iv : Bytes) (hiv : iv.length = 16)
+    (w : Nat) (ops : List SOp) (hv : ∀ o ∈ ops, o.Valid C.bs (2 ^ 128 - 1)) (p m : Nat) (hp : p < (2 ^ 128 - 1) * C.bs)
+    (hm : (p + C.bs - 1) / C.bs * C.bs ≤ m) :
+    (Wr.runOps (Belt.core C) w (Wr.fromCore (Belt.core C) (Belt.init C iv)) (ops ++ [.seek p, .pos m])).1
+      = (Wr.runOps (Belt.core C) w (Wr.fromCore (Belt.core C) (Belt.init C iv)) ops).1 ++ [.ok, .pos p] :=
+  seek_then_pos_generic C.bs (2 ^ 128 - 1) (ksByte C.bs (beltKs C iv))
+    (fun ops => (Wr.runOps (Belt.core C) w (Wr.fromCore (Belt.core C) (Belt.init C iv)) ops).1)
+    (fun ops hv => belt_ops_coherent C hC hbs iv hiv w ops hv) ops hv p m hp hm
+
 /-! non-vacuity: a valid history with a forward seek, a backward seek and a mid-block seek (bs = 16, w = 32) -/
 example : ∀ o ∈ [SOp.apply [1, 2, 3], .seek 1000, .pos (2 ^ 32 - 1), .seek 5, .apply [4], .seek 17],
     o.Valid 16 (2 ^ 32 - 1) := by
